@@ -252,7 +252,8 @@ func minimiseStrings(cur **Plan, try func(*Plan) bool) {
 		var s, s2 string
 		i := 0
 		eachOp(*cur, func(o *Op) {
-			if i == k {
+			if i == k && o.Op != "setexpr" && o.Op != "settmpl" {
+				// texts that come with generator bookkeeping (expected names) are atomic
 				s, s2 = o.S, o.S2
 			}
 			i++
